@@ -47,10 +47,10 @@ LEVEL_TEXT = (
 LEVEL_NOTE = (
     "Trusted: Lean kernel + Mathlib (axioms propext, Classical.choice, Quot.sound); real-number idealisation of IEEE arithmetic; "
     "the correspondence (differential test, sampled) between model and code; existence of a thin SVD and that jnp.linalg.svd "
-    "returns one (hypothesis of C02_nuclear, checked numerically on every real case; complex matrices only on singular values); "
+    "returns one (hypotheses of C02_nuclear / C02_nuclear_complex, checked numerically on the factors of every case); "
     "contracts angle=Complex.arg, exp/cos/sin, x**(1/3) and the polar form of the principal complex power (class HasTrig); "
     "inside the band 0<|p|<=1e-7 _dep_cubic_root is approximate by design (residual proved non-zero, effect O(1e-14) on the objective). "
-    "Recorded defects: L0Norm threshold (known l0-threshold); L1MinusL2Norm.prox rejects BlockArray (known l1l2-blockarray)."
+    "Recorded defect: L0Norm threshold (known l0-threshold).  Found by this engine and repaired upstream: L2-ball projection (b3feb73), L1-L2 at v=0 (cda1690), float32 default weights (c5bbd78), L1-L2 on block arrays (d060cbd)."
 )
 PROP_MODULES = ["Scico.Props.C02"]
 EXTRA_TARGETS = ["Drv.Prox"]
@@ -76,7 +76,7 @@ RULE = (
 )
 ASSUMPTIONS = [
     "IEEE rounding is not modelled: model and code are compared within 1e-9 (float64) / 1e-4 (float32) relative tolerance, exactly in decision on dyadic ties",
-    "SVD: every real matrix has a thin SVD and jnp.linalg.svd returns one (orthonormal U columns / Vh rows, s >= 0, U diag(s) Vh = v) - hypothesis of C02_nuclear, checked numerically on the factors of every real nuclear case; no trace inequality is assumed; complex matrices are tied on the singular values only",
+    "SVD: every (real or complex) matrix has a thin SVD and jnp.linalg.svd returns one (orthonormal U columns / Vh rows, s >= 0, U diag(s) Vh = v) - hypotheses of C02_nuclear / C02_nuclear_complex, checked numerically on the factors of every nuclear case; no trace inequality is assumed",
     "contracts of the transcendental primitives used by _dep_cubic_root/_cbrt and the complex L1 phase: angle = Complex.arg, cos/sin/exp, x**(1/3) on x >= 0, principal complex power in polar form (class HasTrig; libm at Float)",
     "_dep_cubic_root inside its band 0 < |p| <= 1e-7 replaces w^3 by -q: approximate by design, excluded from C02_cubic_root (residual proved non-zero); model and code agree there too",
     "projectors handed to SetDistance/SquaredSetDistance are metric projections onto closed convex sets (hypothesis IsProjAt of the theorem)",
@@ -84,7 +84,6 @@ ASSUMPTIONS = [
 
 KNOWN_L0 = "l0-threshold"
 KNOWN_W32 = "loss-default-weight-float32"
-KNOWN_L1L2_BLOCK = "l1l2-blockarray"
 
 
 def _key(case):
@@ -313,8 +312,6 @@ def correspond(ctx, model):
         else:
             check_case(ctx, model, case, run_oracle=True)
     # 2. per family: structured + boundary
-    pg.L1L2_BLOCKS = l1l2_accepts_blocks()  # block layouts of l1l2 are generated as soon as the code accepts them
-    ctx.count("l1l2-block-input:" + ("exercised" if pg.L1L2_BLOCKS else "rejected-by-the-code(known l1l2-blockarray)"))
     ns = ctx.n(22, 230)
     nb = ctx.n(14, 110)
     every = ctx.n(6, 10)
@@ -488,34 +485,6 @@ def findings(ctx, model):
     if common.b2fs(r["out"]) != [float(p[0])]:
         ctx.disagree("prox.l0.witness", {"v": [1.2], "lam": 1.0}, p.tolist(), common.b2fs(r["out"]))
     _w32_witness(ctx, model)
-    _l1l2_block_witness(ctx, model)
-
-
-def l1l2_accepts_blocks():
-    """does L1MinusL2Norm.prox evaluate a BlockArray argument on the tree under test? (known finding l1l2-blockarray)"""
-    c = json.loads((common.CORPUS_DIR / PROP / "l1l2_blockarray.json").read_text())["case"]
-    with warnings.catch_warnings():
-        warnings.simplefilter("ignore")
-        try:
-            pc.Impl(c).prox_flat(pc.flat_value(c, "v"))
-        except TypeError:
-            return False
-    return True
-
-
-def _l1l2_block_witness(ctx, model):
-    """l1l2-blockarray: still a TypeError -> recorded finding; repaired -> the witness is an ordinary correspondence case"""
-    c = json.loads((common.CORPUS_DIR / PROP / "l1l2_blockarray.json").read_text())["case"]
-    if not l1l2_accepts_blocks():
-        ctx.known_finding(KNOWN_L1L2_BLOCK, True, "L1MinusL2Norm.prox(BlockArray) raises TypeError")
-        if not ctx.is_known(KNOWN_L1L2_BLOCK):
-            ctx.violation({"kind": "failing-input", "case": c, "failing": {"reason": "L1MinusL2Norm.prox raises TypeError on a BlockArray"}},
-                          True, "L1MinusL2Norm.prox rejects block arrays")
-        return
-    ctx.known_finding(KNOWN_L1L2_BLOCK, False, "L1MinusL2Norm.prox accepts block arrays")
-    case = dict(c)
-    case["stream"] = "corpus"
-    check_case(ctx, model, case, run_oracle=True)
 
 
 def _w32_witness(ctx, model):
